@@ -125,7 +125,7 @@ def check_errflow(func, producers, qual, module, rep, rule, allow_discard=()):
     return n
 
 
-def reaching_defs(func):
+def reaching_defs(func, by_line=False):
     """Classic reaching definitions over the statement CFG. Returns (cfg, rd_in) where
     rd_in[node.id] maps a local name to the frozenset of keys of the statements whose binding of
     that name may reach the node ('<param>' for parameters)."""
@@ -141,7 +141,7 @@ def reaching_defs(func):
         if not names:
             return st
         d = dict(st)
-        k = key_text(n.stmt)
+        k = key_text(n.stmt) if not by_line else (key_text(n.stmt), n.stmt.lineno)
         for nm in names:
             if isinstance(n.stmt, ast.AugAssign):
                 d[nm] = d.get(nm, frozenset()) | frozenset([k])
@@ -391,3 +391,79 @@ def stale_derived(func):
                     if any(x.id in from_s for x in cfg.nodes_of(u)):
                         out.append((d, s, u, X, mname))
     return out, pairs
+
+
+def dead_bindings(func):
+    """Plain assignments `x = <expr>` whose value reaches no read of x (reaching definitions on
+    the CFG): (stmt, name). Names starting with '_' , tuple targets, names used in nested
+    functions / comprehension scopes closures, and `del`-ed names are skipped."""
+    from .core import key_text, stmts_of
+    cfg, rd = reaching_defs(func, by_line=True)
+    used = set()
+    nested_names = set()
+    for g in ast.walk(func):
+        if isinstance(g, (ast.FunctionDef, ast.AsyncFunctionDef, ast.Lambda)) and g is not func:
+            nested_names |= {n.id for n in ast.walk(g) if isinstance(n, ast.Name)}
+    for n in cfg.nodes:
+        if n.stmt is None:
+            continue
+        exprs = _header_exprs(n.stmt) if isinstance(
+            n.stmt, (ast.If, ast.While, ast.For, ast.With, ast.Try)) else [n.stmt]
+        env = rd.get(n.id, {})
+        for e in exprs:
+            for x in ast.walk(e):
+                if isinstance(x, ast.Name) and isinstance(x.ctx, (ast.Load, ast.Del)):
+                    for k in env.get(x.id, ()):
+                        used.add((x.id, k))
+                if isinstance(x, ast.AugAssign) and isinstance(x.target, ast.Name):
+                    for k in env.get(x.target.id, ()):
+                        used.add((x.target.id, k))
+    out = []
+    for st in stmts_of(func):
+        if isinstance(st, ast.Assign) and len(st.targets) == 1 and isinstance(
+                st.targets[0], ast.Name):
+            nm = st.targets[0].id
+            if nm.startswith('_') or nm in nested_names:
+                continue
+            if (nm, (key_text(st), st.lineno)) not in used:
+                out.append((st, nm))
+    return out
+
+
+def check_dead_computations(prog, rep, rels, rule='VALUE-dead'):
+    """A local bound to the result of a call (a contraction, a selection, a composed matrix) whose
+    value reaches no read (reaching definitions on the CFG) was computed in the belief that it is
+    needed; the statement that should have consumed it uses something else (the un-selected
+    spectrum, the old boundary matrices). Unreachable code, option look-ups kept for their side
+    effect and plain aliases / constants are not reported."""
+    from .cfg import CFG
+    from .core import key_text
+    n = 0
+    for rel in rels:
+        m = prog.module(rel)
+        rep.unit(m)
+        for q, f in m.functions.items():
+            dead = dead_bindings(f)
+            n += 1
+            if not dead:
+                continue
+            cfg = CFG(f)
+            reach = cfg.reachable_from([cfg.entry])
+            for st, nm in dead:
+                v = st.value
+                while isinstance(v, ast.Subscript):
+                    v = v.value
+                if not isinstance(v, ast.Call):
+                    continue
+                if isinstance(v.func, ast.Attribute) and v.func.attr in ('get', 'subconfig',
+                                                                        'setdefault', 'pop'):
+                    continue
+                if not any(x in reach for x in cfg.nodes_of(st)):
+                    continue
+                rep.violation(rule, m, q, 'dead:%s' % nm,
+                              '`%s` computes a value that no later statement reads (every path '
+                              'either re-binds `%s` or ends first): the result the function '
+                              'goes on with is not the one computed here' %
+                              (key_text(st)[:70], nm), st.lineno)
+    rep.instance(rule, {'functions_analysed': n, 'modules': list(rels)})
+    return n
